@@ -255,7 +255,7 @@ func genC10(o *vcoq.Out, r *vcoq.Rand, tier string) error {
 	o.Header = "From SC Require Import Base.Prelude Bus.Bus Bus.Pipe Bus.PipeJudge Bus.C10Judge."
 	o.CaseType = "c10case"
 	o.Judge = "judge"
-	o.Shard = 40
+	o.Shard = 130
 	o.Rule = "distinct (script of controller actions with all observations) for KScript/KPipe, distinct end-of-run record for free-running cases; non-trivial = at least one cancel inside a Send/stop window, or a blocked writer, or a receive racing a close"
 	g := &gen{o: o, r: r, tier: tier}
 	nScript, nPipe, nFree := 2500, 1500, 160
